@@ -422,6 +422,31 @@ pub fn run_history_sparse(
                 }
             }
         }
+        // further observers of the same arc set, at up to six vertices: neighbourhoods and degrees
+        let mut looked = 0;
+        for &u in ids.iter().filter(|u| model.v.contains(u)) {
+            if looked == 6 {
+                break;
+            }
+            looked += 1;
+            let want_out: Vec<(usize, i64)> = model.a.range((u, 0)..=(u, usize::MAX)).map(|(&(_, w), &x)| (w, if kind.weighted() { x } else { 0 })).collect();
+            let want_in: Vec<usize> = model.a.keys().filter(|&&(_, w)| w == u).map(|&(t, _)| t).collect();
+            let want = crate::dynrep::Around { outdegree: want_out.len(), indegree: want_in.len(), degree: want_out.len() + want_in.len(), out: want_out, inn: want_in };
+            match g.around(u) {
+                Err(m) => {
+                    vs.push(Violation::new("unexpected_panic", &format!("{rname}::neighbourhood"), "valid", format!("{label}after step {i} {s:?}: observing the neighbourhood of vertex {u} panicked: {m}")));
+                    return false;
+                }
+                Ok(got) if got != want => {
+                    let what = if got.out != want.out { "out_neighbors" } else if got.inn != want.inn { "in_neighbors" } else if got.outdegree != want.outdegree { "outdegree" } else if got.indegree != want.indegree { "indegree" } else { "degree" };
+                    vs.push(Violation::new("neighbourhood_mismatch", &format!("{rname}::{what}"), "valid",
+                        format!("{label}after step {i} {s:?}: around vertex {u} the digraph shows outdegree {} indegree {} degree {} and {} / {} listed out- / in-neighbours; the arc set it lists says {} {} {} and {} / {}",
+                            got.outdegree, got.indegree, got.degree, got.out.len(), got.inn.len(), want.outdegree, want.indegree, want.degree, want.out.len(), want.inn.len())));
+                    return false;
+                }
+                Ok(_) => {}
+            }
+        }
     }
     if effective >= 3 {
         st.bump("probe/history_with_3_or_more_effective_mutations");
@@ -474,6 +499,39 @@ impl Lane for C01 {
             clamp_steps(kind, &mut steps);
             let conf = Conf { cpu: draw_cpu(rng, n), sched: draw_sched(rng, 16), trace: None };
             return Scenario { body: Body { kind, start: Start::Empty { order: n }, steps }, confs: vec![conf] };
+        }
+        if rng.chance(1, 1500) {
+            // giant *and* dense: more than 2^17 arcs (size thresholds count arcs, not vertices)
+            let n = *rng.pick(&[363, 400, 448, 512, 513]);
+            let start = if kind.weighted() {
+                let d = Dg::complete(n);
+                Start::Model { d: with_weights(rng, &d, kind), via: "builder".into() }
+            } else if rng.chance(2, 3) {
+                Start::Gen { gen: "complete".into(), a: n, b: 0 }
+            } else {
+                Start::Rand { gen: "erdos_renyi".into(), order: n, seed: rng.next_u64(), p_bits: f64::to_bits(0.93) }
+            };
+            if start_supported(kind, &start) {
+                let mut steps = Vec::new();
+                for _ in 0..rng.range(4, 10) {
+                    let (r1, r2) = (rng.below(n), rng.below(n));
+                    let u = *rng.pick(&[0, 1, n / 2, n - 2, n - 1, r1]);
+                    let mut v = *rng.pick(&[0, 1, n / 2, n - 2, n - 1, r2, u + 1, n]);
+                    if rng.chance(4, 5) && u == v {
+                        v = (v + 1) % n;
+                    }
+                    steps.push(if rng.chance(2, 3) {
+                        Step::Remove { u, v }
+                    } else if kind.weighted() {
+                        Step::AddW { u, v, w: draw_weight(rng, kind) }
+                    } else {
+                        Step::Add { u, v }
+                    });
+                }
+                clamp_steps(kind, &mut steps);
+                let conf = Conf { cpu: draw_cpu(rng, n), sched: draw_sched(rng, 16), trace: None };
+                return Scenario { body: Body { kind, start, steps }, confs: vec![conf] };
+            }
         }
         let start = draw_start(rng, kind);
         let n = start_order_hint(&start);
@@ -529,7 +587,12 @@ impl Lane for C01 {
         if kind == ReprKind::Matrix && (n * n) % 64 != 0 {
             st.bump("probe/matrix_order_squared_not_multiple_of_64");
         }
-        let ok = run_history(kind, &mut g, &mut model, steps, st, &mut vs, "");
+        // with 10^5 arcs the full listing is compared after every fourth step and after the last one
+        let every = if model.a.len() > 50_000 { 4 } else { 1 };
+        if model.a.len() > (1 << 17) {
+            st.bump("probe/history_on_more_than_2^17_arcs");
+        }
+        let ok = run_history_sparse(kind, &mut g, &mut model, steps, st, &mut vs, "", every);
         if ok {
             // == against a freshly built digraph with the same (V, A, w)
             if !model.v.is_empty() && (kind == ReprKind::Map || model.unweighted().is_contiguous()) {
